@@ -1,5 +1,14 @@
+//! Native pool blueprints under hostile ledger workloads (C41).
+mod c41;
+
 fn main() {
     let args = rv_common::parse_args();
-    eprintln!("no check named {}", args.prop);
-    std::process::exit(2);
+    let code = match args.prop.as_str() {
+        "C41" => c41::run(&args),
+        other => {
+            eprintln!("rv-pool: no check named {other}");
+            2
+        }
+    };
+    std::process::exit(code);
 }
